@@ -241,7 +241,7 @@ def ev_toml(c) -> R:
         label = f"{cfg} with " + ", ".join(f"{k} = {SHAPES[s]}" for k, s in c["repl"].items())
         # values of a plainly wrong TOML type are a configuration error (nothing is said here about odd-but-typed values)
         wrong = any((k == "version" and s not in ("integer", "absent")) or
-                    (k in ("path", "precedence", "SPDX-FileCopyrightText", "SPDX-License-Identifier")
+                    (k in ("path", "precedence", "SPDX-FileCopyrightText", "SPDX-License-Identifier") and "annotations" not in c["repl"]
                      and s in ("integer", "float", "boolean", "datetime", "int-array", "table-array", "inline-table", "nested-array"))
                     for k, s in c["repl"].items())
         judge(r, out, cmd, label, "toml|" + "+".join(f"{k}:{s}" for k, s in sorted(c["repl"].items())), config_path=cfg, must_be_config_error=wrong)
